@@ -32,6 +32,8 @@ EXPLANATION = (
 )
 EXPLANATION_ADD = ' Additions: (SIB-expiry) view and model compute the expiry per segment; (SIB-reverse-index) both mirror the current hop/info index as (count - current) - 1; armed subtraction underflow in StandardPathView::try_reverse (dev).'
 EXPLANATION = EXPLANATION + EXPLANATION_ADD
+EXPLANATION_ADD6 = ' Round-6 addition: (SIB-onehop-guard) the three reversals of a one-hop path (view try_reverse, model try_reverse, model try_into_reversed_standard_path) refuse an incomplete path by testing the same raw field of the same hop, so view and model agree on Ok/Err.'
+EXPLANATION = EXPLANATION + EXPLANATION_ADD6
 RESIDUAL = [
     "equality of view and model answers at every position (value property) — decided only through the sibling rules SIB-expiry and SIB-reverse-index (same structure of the computation on both sides)",
     "reversal is an involution (value property)",
